@@ -372,5 +372,6 @@ func (c *Sender) Unbind(senderAddress, destinationAddress *model.FeatureAddressT
 func (c *Sender) getMsgCounter() *model.MsgCounterType {
 	// TODO:  persistence
 	i := model.MsgCounterType(atomic.AddUint64(&c.msgNum, 1))
+	verifPoint("Sender.counter", uint64(i))
 	return &i
 }
